@@ -139,6 +139,7 @@ type CheckDef struct {
 	RaceFrac   float64 // share of scenario indices (the last ones) executed by the -race worker
 	Chunk      int
 	TimeoutS   int // chunk watchdog (seconds), 0 = default
+	MaxBadShare float64 // tolerated share of crash+invalid scenarios (default 0.10); above it the check exits 2
 }
 
 var checks = map[string]*CheckDef{}
@@ -293,6 +294,39 @@ func shortPanic(s string) string {
 		}
 	}
 	return out
+}
+
+// panicOrigin inspects a recovered panic's stack: the first frame after the
+// runtime's panic frames tells whether model code (package hermes) or harness
+// code (overlaid zz_verif_ files) faulted.
+func panicOrigin(stack string) (where string, model bool) {
+	lines := strings.Split(stack, "\n")
+	seenPanic := false
+	for i, l := range lines {
+		if strings.HasPrefix(l, "panic(") {
+			seenPanic = true
+			continue
+		}
+		if !seenPanic {
+			continue
+		}
+		t := strings.TrimSpace(l)
+		if !strings.Contains(t, ".go:") || strings.Contains(t, "/runtime/") {
+			continue
+		}
+		_ = i
+		if sp := strings.IndexByte(t, ' '); sp > 0 {
+			t = t[:sp]
+		}
+		if strings.Contains(t, "zz_verif_") {
+			return t, false
+		}
+		if k := strings.Index(t, "/hermes/"); k >= 0 && !strings.Contains(t, "/src/hermes2go/") {
+			return t[k+1:], true
+		}
+		return t, false
+	}
+	return "", false
 }
 
 func nowMS(t0 time.Time) float64 { return float64(time.Since(t0).Microseconds()) / 1000 }
